@@ -197,6 +197,96 @@ theorem input_set_in_one_group (sets : List ASet) (x : ASet) (hx : x ∈ sets) :
     ∃ g ∈ separableGroups sets, ∀ a ∈ x, a ∈ g :=
   (groups_spec sets.length sets (Nat.le_refl _)).2.2 x hx
 
+/-! #### the groups are connected: together with disjointness and `input_set_in_one_group` they are exactly the connected
+components of the "share a pixel axis" relation -/
+
+/-- `a` and `c` are linked through a chain of input sets, consecutive ones sharing an axis -/
+inductive Reach (U : List ASet) : Nat → Nat → Prop
+  | refl (a : Nat) : Reach U a a
+  | step {a b c : Nat} (x : ASet) (hx : x ∈ U) (ha : a ∈ x) (hb : b ∈ x) (h : Reach U b c) : Reach U a c
+
+theorem Reach.trans {U : List ASet} {a b c : Nat} (h1 : Reach U a b) (h2 : Reach U b c) : Reach U a c := by
+  induction h1 with
+  | refl _ => exact h2
+  | step x hx ha hb _ ih => exact Reach.step x hx ha hb (ih h2)
+
+theorem Reach.single {U : List ASet} {a b : Nat} (x : ASet) (hx : x ∈ U) (ha : a ∈ x) (hb : b ∈ x) : Reach U a b :=
+  Reach.step x hx ha hb (Reach.refl b)
+
+theorem Reach.symm {U : List ASet} {a b : Nat} (h : Reach U a b) : Reach U b a := by
+  induction h with
+  | refl _ => exact Reach.refl _
+  | step x hx ha hb _ ih => exact ih.trans (Reach.single x hx hb ha)
+
+def Conn (U : List ASet) (g : ASet) : Prop := ∀ a ∈ g, ∀ b ∈ g, Reach U a b
+
+theorem conn_of_mem {U : List ASet} {x : ASet} (hx : x ∈ U) : Conn U x :=
+  fun _ ha _ hb => Reach.single x hx ha hb
+
+theorem conn_append {U : List ASet} {s x : ASet} (hs : Conn U s) (hx : x ∈ U) (hnd : disjoint s x = false) : Conn U (s ++ x) := by
+  have : ∃ c ∈ s, c ∈ x := by
+    by_contra hcon
+    have : disjoint s x = true := by
+      rw [disjoint_iff]; intro c hc hcx; exact hcon ⟨c, hc, hcx⟩
+    rw [this] at hnd; cases hnd
+  obtain ⟨c, hcs, hcx⟩ := this
+  intro a ha b hb
+  rcases List.mem_append.mp ha with ha | ha <;> rcases List.mem_append.mp hb with hb | hb
+  · exact hs a ha b hb
+  · exact (hs a ha c hcs).trans (Reach.single x hx hcx hb)
+  · exact (Reach.single x hx ha hcx).trans (hs c hcs b hb)
+  · exact Reach.single x hx ha hb
+
+theorem pass_conn (U : List ASet) (s : ASet) (hs : Conn U s) : ∀ rest : List ASet, (∀ x ∈ rest, x ∈ U) → Conn U (pass s rest).1 := by
+  intro rest
+  induction rest with
+  | nil => intro _; simpa [pass] using hs
+  | cons x xs ih =>
+    intro hU
+    have ihc := ih (fun y hy => hU y (by simp [hy]))
+    simp only [pass]
+    split
+    · exact ihc
+    · rename_i hd
+      exact conn_append ihc (hU x (by simp)) (by simpa using hd)
+
+theorem absorb_conn (U : List ASet) : ∀ (fuel : Nat) (s : ASet) (rest : List ASet), Conn U s → (∀ x ∈ rest, x ∈ U) →
+    Conn U (absorb fuel s rest).1 := by
+  intro fuel
+  induction fuel with
+  | zero => intro s rest hs _; simpa [absorb] using hs
+  | succ n ih =>
+    intro s rest hs hU
+    simp only [absorb]
+    split
+    · exact pass_conn U s hs rest hU
+    · exact ih _ _ (pass_conn U s hs rest hU) (fun x hx => hU x ((pass_spec s rest).2.2.2.1 x hx))
+
+theorem groups_conn (U : List ASet) : ∀ (fuel : Nat) (sets : List ASet), sets.length ≤ fuel → (∀ x ∈ sets, x ∈ U) →
+    ∀ g ∈ groups fuel sets, Conn U g := by
+  intro fuel
+  induction fuel with
+  | zero =>
+    intro sets h _ g hg
+    have : sets = [] := List.length_eq_zero_iff.mp (by omega)
+    subst this
+    simp [groups] at hg
+  | succ n ih =>
+    intro sets h hU g hg
+    cases sets with
+    | nil => simp [groups] at hg
+    | cons s rest =>
+      simp only [groups] at hg
+      have hrestU : ∀ x ∈ rest, x ∈ U := fun x hx => hU x (by simp [hx])
+      obtain ⟨_, _, a3, a4, _, _⟩ := absorb_spec (rest.length + 1) s rest (by omega)
+      rcases List.mem_cons.mp hg with rfl | hg
+      · exact absorb_conn U _ s rest (conn_of_mem (hU s (by simp))) hrestU
+      · exact ih _ (by simp at h; omega) (fun x hx => hrestU x (a4 x hx)) g hg
+
+/-- **every group is connected**: any two of its world axes are linked through a chain of pixel axes -/
+theorem groups_connected (sets : List ASet) : ∀ g ∈ separableGroups sets, Conn sets g :=
+  groups_conn sets sets.length sets (Nat.le_refl _) (fun _ h => h)
+
 /-- the chain a-(x0,x1), b-(x1,x2), c-(x2) that the single-pass loop split into {a,b},{b,c} (D17) -/
 example : separableGroups [[0], [0, 1], [1, 2]] = [[0, 0, 1, 1, 2]] := by decide
 
